@@ -37,7 +37,7 @@ SPEC = {
              "or wrapped around the source (TestNextAcrossInstances); distinct = hash of the case."),
     "floors": {"TestScenarioExecution/flow_captured_value": 0.15, "TestScenarioExecution/multiplicity": 0.3,
                "TestScenarioExecution/multiplicity_with_sleep": 0.08, "TestScenarioExecution/pause_checked": 0.2,
-               "TestScenarioExecution/ammo_pauses_checked": 0.95,
+               "TestScenarioExecution/ammo_pauses_checked": 0.5,
                "TestScenarioExecution/repeated_request_pause_argument_differs": 0.2,
                "TestScenarioExecution/fail_transport_body_cut": 0.08,
                "TestScenarioExecution/fail_transport_step_without_postprocessors": 0.06,
@@ -46,7 +46,7 @@ SPEC = {
                "TestScenarioExecution/fail_template_by_captured_value": 0.02, "TestScenarioExecution/fail_at_middle_step": 0.08,
                "TestScenarioExecution/scenarios_ge_2": 0.25, "TestScenarioExecution/weights_gcd_gt_1": 0.03,
                "TestScenarioExecution/next_used": 0.3, "TestScenarioExecution/next_wrapped": 0.15,
-               "TestScenarioExecution/non2xx_without_assert_continues": 0.05,
+               "TestScenarioExecution/non2xx_without_assert_continues": 0.036,
                "TestScenarioExecution/header_named_url_or_body": 0.03,
                "TestNextAcrossInstances/next_wrapped": 0.25, "TestNextAcrossInstances/invocations_interleaved_at_target": 0.2,
                "TestNextAcrossInstances/instances_4": 0.1},
